@@ -91,8 +91,12 @@ SAFE_BUILTINS = {
 }
 SAFE_CONCRETE_MODULES = ("math", "struct", "binascii", "enum", "typing", "operator", "functools", "itertools",
                          "collections", "dataclasses", "re", "textwrap", "string", "copy", "abc", "os.path",
-                         "posixpath", "datetime", "packaging", "json")
-SAFE_RECEIVER_TYPES = (str, bytes, int, bool, float, tuple, frozenset, range, type(None), enum.Enum, slice)
+                         "posixpath", "datetime", "packaging", "json", "inspect")
+import datetime as _dt
+import inspect as _inspect
+
+SAFE_RECEIVER_TYPES = (str, bytes, int, bool, float, tuple, frozenset, range, type(None), enum.Enum, slice, _dt.datetime, _dt.date,
+                       _dt.timedelta, _dt.timezone, _inspect.Signature, _inspect.Parameter, types.MappingProxyType)
 MUTABLE_RECEIVER_TYPES = (list, dict, set, bytearray)
 
 
